@@ -38,6 +38,7 @@ type ackObs struct {
 	leading   bool              // the sender still leads the partition at this instant
 	raftIndex uint64            // metadata operations committed at this instant
 	leaderVal string
+	torn      bool // the observation took scheduling steps: holders, believed and leaderVal were not read at the ack instant
 }
 
 type pubRec struct {
@@ -170,6 +171,15 @@ func (c *cluster) tap(conn *nats.Conn, subject, reply string, data []byte) {
 		return
 	}
 	o := &ackObs{ack: ack, from: src.idx, step: c.h.s.Steps, holders: map[string]string{}, believed: map[string]int64{}, raftIndex: c.h.cluster.CommitIndex()}
+	// The observation is one instant: it runs on the sending server's task, and reading the replicas' logs
+	// passes scheduling points (locks). Left open, the task can be preempted - or its server stalled for
+	// seconds - half-way through, and the holders would be read long after the ack left. No optional
+	// scheduling point is taken until the observation is complete; if the task had to wait for a lock after
+	// all (steps were taken), the observation is torn and only its time-independent parts are used.
+	c.h.s.Quiet(true)
+	defer func() {
+		c.h.s.Quiet(false)
+	}()
 	if st := src.srv.metadata.streams[clStream]; st != nil { // (no locks: the sender may hold them)
 		if p := st.partitions[0]; p != nil {
 			o.epoch = p.LeaderEpoch
@@ -211,6 +221,10 @@ func (c *cluster) tap(conn *nats.Conn, subject, reply string, data []byte) {
 	r.acks = append(r.acks, o)
 	c.acksSeen++
 	c.h.s.Count("probe.acks_observed")
+	if c.h.s.Steps != o.step {
+		o.torn = true
+		c.h.s.Count("probe.ack_observation_torn")
+	}
 	if c.onAck != nil {
 		c.onAck(c, r, o)
 	}
